@@ -94,3 +94,21 @@ Qed.
 
 Example w_ranges : map (map_range (m2o w_s)) (map sbytes w_final) = [(0, 6); (6, 12); (12, 15)].
 Proof. vm_compute. reflexivity. Qed.
+
+(* ReachU is inhabited beyond the start state: "ＡＢ" + "アイ東京都" with the full-width letters replaced by "ab"
+   (a length-changing UTF-8 edit) reaches a state whose text is again an encoding *)
+Definition u_t0 : list N := [65313; 65314; 12450; 12452]%N.
+Definition u_s0 : buf := match start_build the_cfg (enc u_t0) with Ok s => s | _ => mkBuf [] [] [] end.
+Definition u_es : list edit := [mkE 0 3 (enc [97%N]); mkE 3 6 (enc [98%N])].
+Definition u_s1 : buf := match commit the_cfg u_s0 u_es with Ok s => s | _ => mkBuf [] [] [] end.
+Example u_reach : ReachU the_cfg (enc u_t0) u_s1.
+Proof.
+  apply (RU_commit the_cfg (enc u_t0) u_s0 u_es u_s1).
+  - apply RU_start. vm_compute. reflexivity.
+  - vm_compute. reflexivity.
+  - repeat constructor; eexists; reflexivity.
+  - vm_compute. reflexivity.
+  - vm_compute. discriminate.
+Qed.
+Example u_text : cur u_s1 = enc [97; 98; 12450; 12452]%N.
+Proof. vm_compute. reflexivity. Qed.
